@@ -106,6 +106,7 @@ Definition check_case (generated_key : bool) (cs : cert_case) : list N :=
                 | None => Some None
                 end in
   let model : option (cert_cfg * tcert * bytes) :=
+    if negb (files_convert (cs_profile cs) (cs_cfg cs)) then None else
     match effective (cs_profile cs) (cs_cfg cs), issuer with
     | Some c, Some iss =>
       if sig_fits c (cs_signer_key cs) then
